@@ -113,6 +113,8 @@ class Sources(object):
             self.functions["%s:%s" % (modname, node.name)] = node
         elif isinstance(node, ast.ClassDef):
             self._visit_class(modname, node)
+        elif isinstance(node, ast.Assign) and len(node.targets) == 1 and isinstance(node.targets[0], ast.Name):
+            self.module_consts[(modname, node.targets[0].id)] = node.value
         elif isinstance(node, (ast.If, ast.Try)):
             for sub in ast.iter_child_nodes(node):
                 if isinstance(sub, (ast.FunctionDef, ast.ClassDef)):
@@ -156,6 +158,7 @@ class Sources(object):
 
     # ------------------------------------------------------------------
     ext_exc = {}
+    module_consts = {}      # (module, name) -> value expression of a module-level `NAME = <expr>`
 
     def add_virtual(self, name, bases, members):
         self.virtual[name] = {"bases": list(bases), "members": list(members)}
